@@ -211,6 +211,19 @@ func init() {
 		}
 		return TupleV{ex.tmProtoKey(ex.sdkEdKeyBytes(iv.V)), IfaceV{}}
 	})
+	// cometbft's own ed25519 key type (a byte slice) as produced by ToTmPubKeyInterface
+	reg(pkCryptoCd+".ToTmPubKeyInterface", func(ex *Exec, a []Val) Val {
+		iv := a[0].(IfaceV)
+		if iv.T == nil {
+			ex.goPanic("nil pointer dereference (ToTmPubKeyInterface)")
+		}
+		if pt, ok := iv.T.(*types.Pointer); !ok || typeKey(pt.Elem()) != pkSdkEd+".PubKey" {
+			return TupleV{IfaceV{}, ex.newErr("cryptocodec", "cannot convert to Tendermint public key")}
+		}
+		t := ex.namedType("github.com/cometbft/cometbft/crypto/ed25519", "PubKey")
+		return TupleV{IfaceV{T: t, V: ex.mkBytes(ex.sdkEdKeyBytes(iv.V))}, IfaceV{}}
+	})
+	reg("(github.com/cometbft/cometbft/crypto/ed25519.PubKey).Bytes", func(ex *Exec, a []Val) Val { return a[0] })
 	const ED = "(*" + pkSdkEd + ".PubKey)."
 	reg(ED+"Address", func(ex *Exec, a []Val) Val {
 		bs := ex.sdkEdKeyBytes(a[0])
@@ -377,6 +390,25 @@ func init() {
 	})
 	reg("("+pkStaking+".Validator).IsJailed", func(ex *Exec, a []Val) Val {
 		return a[0].(StructV).F[fieldIndex(ex.namedType(pkStaking, "Validator"), "Jailed")]
+	})
+	reg("("+pkStaking+".Validator).GetConsensusPower", func(ex *Exec, a []Val) Val {
+		// ConsensusPower: zero unless bonded, else Tokens.Quo(r).Int64()
+		vt := ex.namedType(pkStaking, "Validator")
+		v := a[0].(StructV)
+		status := v.F[fieldIndex(vt, "Status")].(*Term)
+		if !ex.Branch(ex.tf.Eq(status, ex.tf.BVu(3, 32))) {
+			return ex.tf.BVu(0, 64)
+		}
+		tokens := ex.bigArg(v.F[fieldIndex(vt, "Tokens")], "GetConsensusPower")
+		r := ex.bigArg(a[1], "GetConsensusPower")
+		if ex.Branch(ex.tf.Eq(r, ex.tf.Inti(0))) {
+			ex.goPanic("division by zero")
+		}
+		q := ex.truncDiv(tokens, r)
+		if !ex.Branch(ex.isInt64(q)) {
+			ex.goPanic("Int64() out of bound")
+		}
+		return ex.tf.Int2BV(q, 64)
 	})
 	reg("("+pkStaking+".Validator).GetTokens", func(ex *Exec, a []Val) Val {
 		return a[0].(StructV).F[fieldIndex(ex.namedType(pkStaking, "Validator"), "Tokens")]
